@@ -1,7 +1,15 @@
 import TbbVerif.Core.Proto
+import TbbVerif.Model.C01
 
 open TbbVerif
 
-def drivers : List (String × Proto.Driver) := []
+def drivers : List (String × Proto.Driver) := [
+  ("c01dq", C01.driverDeque),
+  ("c01px", C01.driverProxy),
+  ("c01mb", C01.driverMailbox),
+  ("c01st", C01.driverStream),
+  ("c01vx", C01.driverVertex),
+  ("c01ft", C01.driverFold)
+]
 
 def main (args : List String) : IO UInt32 := Proto.mainOf drivers args
